@@ -30,7 +30,8 @@ META = {
         "records acreage for every lot kind (single / range end / range "
         "start); duplicate detection compares each element with all later "
         "ones and raises one paired flag for lots and one for aliquots; "
-        "lots_qqs = lots + qqs, ilots maps lots."),
+        "lots_qqs = lots + qqs, ilots maps lots."
+        " Also: half_plus_q_regex completes before every element separator, ilots reads after the last 'L', parallel lots/qqs statements read one collection each, argument-over-attribute lock-down of the lot settings."),
     'families': ['SEP', 'DEFUSE', 'PAIR', 'RX-LANG', 'FORWARD', 'DEADPARAM', 'SIB-DEFAULTS'],
 }
 
